@@ -39,6 +39,7 @@ type Program struct {
 	fnByObj map[types.Object]*ssa.Function
 
 	callIdx     map[token.Pos]*ast.CallExpr
+	retIdx      map[token.Pos]string
 	siteCallees map[ssa.CallInstruction][]*ssa.Function
 	fnCallers   map[*ssa.Function][]ssa.CallInstruction
 }
